@@ -25,11 +25,26 @@ type VerifHSRecorder func(side, ev string, packet []byte)
 
 type verifRecTransport struct {
 	keyingTransport
-	side string
-	rec  VerifHSRecorder
+	side  string
+	rec   VerifHSRecorder
+	noise VerifHSNoise
 }
 
+// VerifHSNoise returns packets (SSH_MSG_IGNORE / SSH_MSG_DEBUG) that the side
+// itself sends immediately before the packet next, as a peer is allowed to.
+type VerifHSNoise func(side string, next []byte) [][]byte
+
 func (r *verifRecTransport) writePacket(p []byte) error {
+	if r.noise != nil {
+		for _, n := range r.noise(r.side, p) {
+			if r.rec != nil {
+				r.rec(r.side, "noise", n)
+			}
+			if err := r.keyingTransport.writePacket(n); err != nil {
+				return err
+			}
+		}
+	}
 	if r.rec != nil {
 		r.rec(r.side, "wire", p)
 	}
@@ -61,17 +76,27 @@ type VerifHandshake struct {
 
 // VerifNewClientHandshake starts a client handshakeTransport on rwc.
 func VerifNewClientHandshake(rwc io.ReadWriteCloser, config *ClientConfig, clientVersion, serverVersion []byte, dialAddr string, addr net.Addr, rec VerifHSRecorder) *VerifHandshake {
+	return VerifNewClientHandshakeNoise(rwc, config, clientVersion, serverVersion, dialAddr, addr, rec, nil)
+}
+
+// VerifNewClientHandshakeNoise is VerifNewClientHandshake with a noise source.
+func VerifNewClientHandshakeNoise(rwc io.ReadWriteCloser, config *ClientConfig, clientVersion, serverVersion []byte, dialAddr string, addr net.Addr, rec VerifHSRecorder, noise VerifHSNoise) *VerifHandshake {
 	config.SetDefaults()
 	tr := newTransport(rwc, config.Rand, true)
-	t := newClientTransport(&verifRecTransport{keyingTransport: tr, side: "c", rec: rec}, clientVersion, serverVersion, config, dialAddr, addr)
+	t := newClientTransport(&verifRecTransport{keyingTransport: tr, side: "c", rec: rec, noise: noise}, clientVersion, serverVersion, config, dialAddr, addr)
 	return &VerifHandshake{t: t, tr: tr}
 }
 
 // VerifNewServerHandshake starts a server handshakeTransport on rwc.
 func VerifNewServerHandshake(rwc io.ReadWriteCloser, config *ServerConfig, clientVersion, serverVersion []byte, rec VerifHSRecorder) *VerifHandshake {
+	return VerifNewServerHandshakeNoise(rwc, config, clientVersion, serverVersion, rec, nil)
+}
+
+// VerifNewServerHandshakeNoise is VerifNewServerHandshake with a noise source.
+func VerifNewServerHandshakeNoise(rwc io.ReadWriteCloser, config *ServerConfig, clientVersion, serverVersion []byte, rec VerifHSRecorder, noise VerifHSNoise) *VerifHandshake {
 	config.SetDefaults()
 	tr := newTransport(rwc, config.Rand, false)
-	t := newServerTransport(&verifRecTransport{keyingTransport: tr, side: "s", rec: rec}, clientVersion, serverVersion, config)
+	t := newServerTransport(&verifRecTransport{keyingTransport: tr, side: "s", rec: rec, noise: noise}, clientVersion, serverVersion, config)
 	return &VerifHandshake{t: t, tr: tr}
 }
 
